@@ -56,3 +56,22 @@ Example C12_no_false_success_v2_refuted : In evSuccess (fst (degenerate_run fals
 Proof. vm_compute; tauto. Qed.
 Example C12_degenerate_rejected_v3 : fst (degenerate_run true) = [evCheated].
 Proof. vm_compute; reflexivity. Qed.
+
+(* ---- no crash, no wedge, over every history (version 3) ----
+   The Go code panics where ModInverse returns nil (a divisor that is 0 mod p) or where a state record it is about to
+   read is missing; the mirror reports both as [sr_panic].  For EVERY history of user calls and received SMP messages
+   of any content (values out of range, zero, of unknown structure, wrong types, in any order, any randomness) under
+   protocol version 3, starting from a new SMP context, no step panics. *)
+From OTR Require Import Proto.SmpSafe.
+Theorem C12_never_panics_v3 : forall x h, x_v3 x = true ->
+  fst (smp_run g_q Hc secretHashC x smp_init h) = false.
+Proof. exact (never_panics_v3_init g_q Hc secretHashC). Qed.
+Print Assumptions C12_never_panics_v3.
+
+(* ... and the machine is never wedged: in an encrypted session, whatever state the SMP context is in, the user's
+   next "start" goes through (an abort of the old run and message 1 of the new one are sent) *)
+Theorem C12_can_always_restart : forall s x question secret rnd, x_encrypted x = true ->
+  let r := smp_user g_q Hc secretHashC s x (SStart question secret) rnd in
+  sr_err r = false /\ sm_state (sr_st r) = 2 /\ sr_reply r <> [].
+Proof. exact (can_always_restart g_q Hc secretHashC). Qed.
+Print Assumptions C12_can_always_restart.
